@@ -50,6 +50,7 @@ func joinSlash(s []string) string {
 type rcDriver struct {
 	c    *service.Cache
 	base time.Time
+	nt   int32
 	T    int64
 	d    int64
 }
@@ -75,7 +76,9 @@ func (r *rcDriver) apply(o rOp) int {
 		if diff > r.d {
 			return 0 // rejected by the skew check of APReq.Verify before the cache is consulted
 		}
-		if r.c.IsReplay(types.PrincipalName{NameType: 2, NameString: o.SName}, r.auth(o)) {
+		// the name type is not significant when principal names are compared (RFC 4120 6.2): presentations alternate it
+		r.nt = r.nt%3 + 1
+		if r.c.IsReplay(types.PrincipalName{NameType: r.nt, NameString: o.SName}, r.auth(o)) {
 			return 1
 		}
 		return 2
@@ -494,6 +497,14 @@ func c02(c *Ctx) {
 			}
 			ok1, e1 := present()
 			ok2, _ := present()
+			// the same bytes with only the (cleartext, insignificant) name type of the ticket's sname rewritten
+			{
+				req := m.req
+				req.Ticket.SName.NameType = 3
+				var ok3 bool
+				guard(func() { ok3, _, _ = service.VerifyAPREQ(&req, st) })
+				c.Check(!ok3, "a replay is recognised whatever name type the cleartext service name carries", "e2e:replay-other-nametype", "", map[string]interface{}{"etype": et})
+			}
 			c.Check(ok1 && !ok2, "a fresh authenticator is accepted once and refused as a replay at once", "e2e:first-presentations", fmt.Sprint(ok1, e1, ok2), map[string]interface{}{"etype": et})
 			accepted := 0
 			if ok1 {
